@@ -52,7 +52,7 @@ ERRNOS = [errno.EACCES, errno.EPERM, errno.EIO, errno.ENOMEM, errno.ELOOP,
           errno.EOVERFLOW]
 
 OPS = ['verify', 'verify-k', 'cli-verify', 'verify_path', 'update',
-       'cli-update', 'verify-mtime', 'update-mtime']
+       'cli-update', 'verify-mtime', 'update-mtime', 'cli-verify-sub']
 FAR_FUTURE = 4_000_000_000
 
 
@@ -90,7 +90,13 @@ def case(draw):
                     and m['p'] != lay['manifests'][-1]['p']]
         else:
             extra = None
+    # a sub-directory to hand to the CLI: preferably one with a Manifest of
+    # its own (the upward search passes it on the way to the top)
+    own = sorted({refverify.dirname(p) for p in subm
+                  if refverify.dirname(p) in dirs})
+    subdir = own[0] if own else (dirs[0] if dirs else '')
     d = {'tree': spec, 'manifests': rendered, 'listed': listed,
+         'subdir': subdir,
          'dirs': dirs, 'subm': subm, 'extra': extra, 'tags': lay['tags'],
          'hashes': ['MD5', 'SHA1'],
          'rot': draw(st.integers(0, 9)),
@@ -153,8 +159,11 @@ def run_op(root, op, desc):
              'target': '', 'watermark': None, 'format': None, 'api': 'lib'}
         return updgen.run_update(root, o, save=False,
                                  last_mtime=FAR_FUTURE), None
-    if op == 'cli-verify':
-        oc, records, _ = gem.cli(['verify', root])
+    if op in ('cli-verify', 'cli-verify-sub'):
+        target = root
+        if op == 'cli-verify-sub' and desc.get('subdir'):
+            target = os.path.join(root, desc['subdir'])
+        oc, records, _ = gem.cli(['verify', target])
         return oc, [r.msg for r in records
                     if isinstance(r.msg, ManifestMismatch)]
     if op == 'verify_path':
@@ -176,7 +185,7 @@ def succeeded(op, oc):
         return False
     if op in ('verify', 'verify-k', 'verify-mtime'):
         return oc.value is True
-    if op == 'cli-verify':
+    if op in ('cli-verify', 'cli-verify-sub'):
         return oc.value == 0
     if op == 'verify_path':
         return all(r[0] for p, r in oc.value)
@@ -339,9 +348,14 @@ def run_case(desc):
             targets.append(desc['subm'][0])
         if desc.get('unregistered'):
             targets = [desc['unregistered']]
+        elif desc.get('subdir'):
+            # the top-level Manifest itself, met by the CLI's upward search
+            targets.append('Manifest')
         for t in targets:
             for op in (('update', 'update-mtime')
                        if desc.get('unregistered') else
+                       ('cli-verify-sub', 'cli-verify') if t == 'Manifest'
+                       else
                        ('verify', 'verify-k', 'cli-verify', 'update',
                         'verify-mtime', 'update-mtime')):
                 if op not in leaks:
